@@ -193,6 +193,82 @@ func c18Decode(v string) string {
 	return ""
 }
 
+var c18SegRE = regexp.MustCompile(`^([0-9]{14})-([A-Za-z0-9]+)$`)
+
+// c18Spec is an independent reading of the documented pseudo-version forms (pseudo.go's
+// package comment) on top of the SemVer grammar of c04.go: a valid version whose
+// prerelease is "yyyymmddhhmmss-rev" with minor = patch = 0 (form 1), or ends in the
+// identifiers "0", "yyyymmddhhmmss-rev" (forms 2-5).  It returns the parts the accessors
+// must produce; baseErr is set where PseudoVersionBase has to refuse (build metadata
+// without a base; patch number 0 in forms 2, 3).
+func c18Spec(v string) (is bool, base string, baseErr bool, ts, rev string) {
+	sp := specParse(v)
+	if !sp.ok || sp.pre == "" || sp.short != 0 {
+		return
+	}
+	ids := strings.Split(sp.pre[1:], ".")
+	n := len(ids)
+	m := c18SegRE.FindStringSubmatch(ids[n-1])
+	if m == nil {
+		return
+	}
+	ts, rev = m[1], m[2]
+	switch {
+	case n == 1:
+		if sp.minor != "0" || sp.patch != "0" {
+			return false, "", false, "", ""
+		}
+		return true, "", sp.build != "", ts, rev
+	case ids[n-2] != "0":
+		return false, "", false, "", ""
+	case n == 2:
+		if sp.patch == "0" {
+			return true, "", true, ts, rev
+		}
+		p := new(big.Int).Sub(bigOf(sp.patch), big.NewInt(1))
+		return true, "v" + sp.major + "." + sp.minor + "." + p.String() + sp.build, false, ts, rev
+	default:
+		return true, "v" + sp.major + "." + sp.minor + "." + sp.patch + "-" + strings.Join(ids[:n-2], ".") + sp.build, false, ts, rev
+	}
+}
+
+// c18AccessorsSpec compares the four accessors on an arbitrary string with c18Spec.
+func c18AccessorsSpec(v string) string {
+	var is bool
+	var base, rev string
+	var tm time.Time
+	var e1, e2, e3 error
+	if pn, msg := hx.Guard(func() {
+		is = module.IsPseudoVersion(v)
+		base, e1 = module.PseudoVersionBase(v)
+		rev, e2 = module.PseudoVersionRev(v)
+		tm, e3 = module.PseudoVersionTime(v)
+	}); pn {
+		return fmt.Sprintf("panic on %q: %s", v, msg)
+	}
+	wIs, wBase, wBaseErr, wTs, wRev := c18Spec(v)
+	if is != wIs {
+		return fmt.Sprintf("IsPseudoVersion(%q)=%v, the documented forms say %v", v, is, wIs)
+	}
+	if !wIs {
+		if e1 == nil || e2 == nil || e3 == nil {
+			return fmt.Sprintf("%q is not a pseudo-version but an accessor succeeded (%v,%v,%v)", v, e1, e2, e3)
+		}
+		return ""
+	}
+	if (e1 != nil) != wBaseErr || (e1 == nil && base != wBase) {
+		return fmt.Sprintf("PseudoVersionBase(%q)=%q,%v want %q (error %v)", v, base, e1, wBase, wBaseErr)
+	}
+	if e2 != nil || rev != wRev {
+		return fmt.Sprintf("PseudoVersionRev(%q)=%q,%v want %q", v, rev, e2, wRev)
+	}
+	wT, perr := time.Parse(c18Layout, wTs)
+	if (e3 != nil) != (perr != nil) || (e3 == nil && !tm.Equal(wT)) {
+		return fmt.Sprintf("PseudoVersionTime(%q)=%v,%v want %v,%v", v, tm, e3, wT, perr)
+	}
+	return ""
+}
+
 const c18RevChars = "0123456789abcdefABCDEFghzGHZ"
 
 func c18Rev(r *rand.Rand) string {
@@ -392,10 +468,10 @@ func c18Accessors(c *hx.Ctx, v string) {
 
 // c18Mutant derives a near-miss from a pseudo-version.
 func c18Mutant(r *rand.Rand, pv string) string {
-	switch r.Intn(14) {
-	case 0, 1, 2:
+	switch r.Intn(16) {
+	case 0, 1:
 		return gen.Mutate(r, pv, "v.0-+aA91")
-	case 3: // wrong number of timestamp digits / bad calendar fields
+	case 2, 3, 13: // wrong number of timestamp digits / bad calendar fields
 		re := regexp.MustCompile(`[0-9]{14}-`)
 		loc := re.FindStringIndex(pv)
 		if loc == nil {
@@ -431,7 +507,7 @@ func c18Mutant(r *rand.Rand, pv string) string {
 			return pv[:i]
 		}
 		return pv + "+incompatible"
-	case 6: // negative patch / odd bases
+	case 6, 14: // negative patch / odd bases
 		return pick18(r, "v1.0.0-0.", "v0.0.0-0.", "v2.5.0-0.", "v1.2.10-0.", "v1.2.100-0.", "v1.2.1-0.", "v1.2.01-0.", "v1.2.3-0.0.", "v1.2.3-.0.", "v1.2.3-a..0.", "v1.2.3-00.0.", "v1.2.3-0a.0.", "v1.2.3-a.b.0.", "v1.1.0-", "v1.0.1-", "v1.0.0-0", "v1.0-", "v1-") +
 			"20200102030405-" + c18Rev(r) + pick18(r, "", "", "+incompatible", "+x.y")
 	case 7:
@@ -447,6 +523,8 @@ func c18Mutant(r *rand.Rand, pv string) string {
 		return pv + pick18(r, "\n", " ", ".", "-", ".0")
 	case 11:
 		return pick18(r, "v1", "v01", "vv1", "1", "") + strings.TrimLeft(pv, "v0123456789")
+	case 12:
+		return pick18(r, "v0", "v1", "v2", "v17", "v", "v01") + ".0.0-00010101000000-000000000000" + pick18(r, "", "", "", "0", "+incompatible")
 	default:
 		return pv
 	}
@@ -470,6 +548,9 @@ func runC18(c *hx.Ctx) {
 		}
 		c.Case("PseudoVersion", arg, wire.Ok(wire.S(pv)))
 		c18Accessors(c, pv)
+		if m := c18AccessorsSpec(pv); true {
+			c.Check("accessors-vs-documented-forms", m == "", "", c18In{Op: "spec", V: hx1(pv)}, m)
+		}
 		sp := specParse(older)
 		switch {
 		case older == "":
@@ -529,6 +610,8 @@ func runC18(c *hx.Ctx) {
 		c18Accessors(c, v)
 		msg := c18Decode(v)
 		c.Check("decode-consistent", msg == "", "", c18In{Op: "decode", V: hx1(v)}, msg)
+		msg = c18AccessorsSpec(v)
+		c.Check("accessors-vs-documented-forms", msg == "", "", c18In{Op: "spec", V: hx1(v)}, msg)
 	}
 }
 
@@ -546,6 +629,8 @@ func replayC18(raw json.RawMessage) (bool, string) {
 		msg = c18Mono(major, older, in.T.time(), rev, in.T2.time(), rev2)
 	case "decode":
 		msg = c18Decode(unhx1(in.V))
+	case "spec":
+		msg = c18AccessorsSpec(unhx1(in.V))
 	default:
 		return false, "unknown op"
 	}
